@@ -111,13 +111,24 @@ func runEsl(sc M) {
 		db, derr = signature.ReadSignatureDatabase(bytes.NewReader(in))
 		return derr
 	})
+	// the same stream through a reader that offers nothing but Read (a file, a pipe): same verdict, same lists
+	var db2 signature.SignatureDatabase
+	var derr2 error
+	o2, _ := guard(func() error {
+		db2, derr2 = signature.ReadSignatureDatabase(onlyReader{bytes.NewReader(in)})
+		return derr2
+	})
 	ev := M{"sc": id, "ev": "call-end", "call": "ReadSignatureDatabase", "len": len(in), "outcome": o.Kind, "alloc": o.Alloc, "ms": o.Ms, "expect": expect}
 	if o.Kind == "panic" {
 		ev["panic"] = o.Panic
 	}
 	agree, why := true, ""
 	accepted := o.Kind == "value"
+	if o2.Kind != o.Kind || (o.Kind == "value" && !bytes.Equal(db.Bytes(), db2.Bytes())) {
+		agree, why = false, fmt.Sprintf("decoding through a plain io.Reader gives %s / %d lists, through bytes.Reader %s / %d lists", o2.Kind, len(db2), o.Kind, len(db))
+	}
 	switch {
+	case !agree:
 	case o.Kind == "panic":
 		agree, why = false, "panic"
 	case expect == "must_reject" && accepted:
